@@ -1067,6 +1067,31 @@ func (r *vwRun) drain(n int) {
 	r.emit(r.snapshot(true))
 }
 
+// the private command stack / locked free queue of every open connection (read while the connections are idle); `n` of the
+// step is the index the CmdPool model predicts for connection `c` (scaled), compared outside - never a verdict
+func (r *vwRun) poolEvent(s *vwStep) {
+	r.settle()
+	idx := map[string]int{}
+	lk := map[string]int{}
+	for _, id := range r.order {
+		c := r.conns[id]
+		if c == nil || c.closing || c.cliClosed || c.proto == nil {
+			continue
+		}
+		switch sp := c.proto.(type) {
+		case *BinaryServerProtocol:
+			sp.glock.Lock()
+			idx[strconv.Itoa(id)], lk[strconv.Itoa(id)] = sp.freeCommandIndex, int(sp.lockedFreeCommands.Len())
+			sp.glock.Unlock()
+		case *TextServerProtocol:
+			sp.glock.Lock()
+			idx[strconv.Itoa(id)], lk[strconv.Itoa(id)] = sp.freeCommandIndex, int(sp.lockedFreeCommands.Len())
+			sp.glock.Unlock()
+		}
+	}
+	r.emit(map[string]interface{}{"e": "wpool", "c": s.C, "want": s.N, "priv": idx, "locked": lk, "t": r.w.now})
+}
+
 // ---------------------------------------------------------------- the interpreter
 
 func (r *vwRun) run(sc *vwScenario) {
@@ -1105,6 +1130,8 @@ func (r *vwRun) run(sc *vwScenario) {
 		case "settle":
 			r.tick(s.N)
 			r.emit(r.snapshot(false))
+		case "pool":
+			r.poolEvent(s)
 		case "closeall":
 			r.closeAll()
 		case "drain":
